@@ -150,11 +150,17 @@ class CONTRIBSECURITY(Aggregate):
         by a fixed dollar amount, but not both.
         At least one source must be provided.
         """
-        if not all_equal(key[-3:] for key in kwargs if key != "secid"):
+        # An argument passed as None (or empty) is written as nothing at all
+        sources = [
+            key
+            for key, value in kwargs.items()
+            if key != "secid" and value not in (None, "")
+        ]
+        if not all_equal(key[-3:] for key in sources):
             msg = "{}: mixed *PCT and *AMT are invalid"
             raise ValueError(msg.format(cls.__name__))
 
-        if len(kwargs) < 2:
+        if not sources:
             msg = "{}: at least one source must be provided"
             raise ValueError(msg.format(cls.__name__))
 
